@@ -249,3 +249,54 @@
         for f in failures.iter().take(5) { println!("FAILING INPUT: {}", f); }
         assert!(failures.is_empty());
     }
+
+    /// C03, the documented limits and hostile characters: texts of 49,146..49,152 bytes (ASCII, kana, astral), texts whose normalised form
+    /// crosses 65,535 bytes (U+FDFA: 3 bytes -> 33 bytes under NFKC), NUL / control / unassigned / combining / ZWJ sequences: the analysis
+    /// returns morphemes or an error value - InputTooLong beyond the limits - never panics, and every accessor of every morpheme is callable
+    #[test]
+    fn verif_oracle_limits_and_hostile_text() {
+        if !want("C03") { return; }
+        let (_keep, jd) = dict();
+        let mut texts: Vec<(String, Option<bool>)> = Vec::new();       // (text, must succeed?)  None = either a result or an error value
+        for n in 49146usize..=49152 {
+            texts.push(("a".repeat(n), Some(n <= 49149)));
+            let mut k = "あ".repeat(n / 3); k.push_str(&"a".repeat(n % 3)); texts.push((k, Some(n <= 49149)));
+            let mut e = "😀".repeat(n / 4); e.push_str(&"a".repeat(n % 4)); texts.push((e, Some(n <= 49149)));
+        }
+        for count in [1985usize, 1986, 1987, 2000] { texts.push(("\u{FDFA}".repeat(count), Some(count * 33 <= 65535))); }
+        for t in ["\0", "a\0b", "\u{1}\u{7f}\u{85}", "\u{378}\u{e0001}\u{10ffff}", "e\u{301}\u{301}\u{301}", "👨\u{200d}👩\u{200d}👧", "\u{200d}", "\u{feff}a", "\u{3099}", "ｶ\u{ff9e}\u{ff9e}", "\r\n\t", "\u{fdfa}京都\u{fdfa}"] {
+            texts.push((t.to_string(), Some(true)));
+            texts.push((format!("東京{}都", t), Some(true)));
+        }
+        let mut failures = Vec::new();
+        for (t, must) in texts.iter() {
+            for mode in [Mode::C, Mode::A] {
+                let r = std::panic::catch_unwind(std::panic::AssertUnwindSafe(|| {
+                    let mut tok = StatefulTokenizer::new(&jd, mode);
+                    tok.reset().push_str(t);
+                    tok.do_tokenize().map(|_| {
+                        let mut ms = MorphemeList::empty(&jd);
+                        ms.collect_results(&mut tok).unwrap();
+                        let mut end = 0;
+                        for m in ms.iter() {
+                            let _ = (m.begin_c(), m.end_c(), m.part_of_speech().len(), m.dictionary_form().len(), m.normalized_form().len(), m.reading_form().len(), m.is_oov(), m.dictionary_id(), m.synonym_group_ids().len(), m.total_cost());
+                            assert_eq!(&*m.surface(), &t[m.begin()..m.end()]);
+                            assert_eq!(m.begin(), end); end = m.end();
+                        }
+                        assert_eq!(end, t.len());
+                    })
+                }));
+                let head: String = t.chars().take(12).collect();
+                match (r, must) {
+                    (Err(_), _) => if failures.len() < 20 { failures.push(format!("C03: analysis of {:?}... ({} bytes) in mode {:?} panics", head, t.len(), mode)); },
+                    (Ok(Ok(())), Some(false)) => if failures.len() < 20 { failures.push(format!("C03: {:?}... ({} bytes) is beyond the documented limits but was analysed", head, t.len())); },
+                    (Ok(Err(e)), Some(true)) => if failures.len() < 20 { failures.push(format!("C03: {:?}... ({} bytes) is within the documented limits but fails: {:?}", head, t.len(), e)); },
+                    (Ok(Err(e)), Some(false)) => { if !format!("{:?}", e).contains("InputTooLong") && failures.len() < 20 { failures.push(format!("C03: {:?}... ({} bytes) beyond the limits fails with {:?}, not InputTooLong", head, t.len(), e)); } },
+                    _ => {}
+                }
+            }
+        }
+        println!("verif_oracle_limits_and_hostile_text: {} texts, {} failures", texts.len(), failures.len());
+        for f in failures.iter().take(5) { println!("FAILING INPUT: {}", f); }
+        assert!(failures.is_empty());
+    }
